@@ -291,6 +291,8 @@ func c07Table(r *core.Run, begin, joinFn, newFn *core.FuncInfo) {
 				return []flow.Tag{"isglobal"}
 			case core.IsPkgFunc(callee, pTM, "UnbindXid"):
 				return []flow.Tag{"unbind"}
+			case core.IsPkgFunc(callee, pTM, "SetXID") || core.IsPkgFunc(callee, pTM, "SetXIDCopy"):
+				return []flow.Tag{"bindxid"}
 			case callee == joinFn.Obj:
 				return []flow.Tag{"join"}
 			case callee == newFn.Obj:
@@ -311,6 +313,16 @@ func c07Table(r *core.Run, begin, joinFn, newFn *core.FuncInfo) {
 			return nil
 		}}
 	res := sp.Analyze(begin)
+	// a suspended scope carries no xid: once the inherited xid is unbound nothing puts one back (neither as Xid nor
+	// as XidCopy — GetXID falls back to the copy, and GetXID is what the RPC carriers propagate) except the begin of
+	// the scope's own new transaction
+	for _, cp := range res.Calls {
+		if inSet("bindxid", cp.Tags...) {
+			r.Sites++
+			r.Check(!cp.Before.Maybe("unbind"), "C07.table", core.ShortKey(begin.Obj)+" -> "+core.ShortKey(cp.Callee)+" after the inherited xid was unbound", w.Pos(cp.Call.Pos()), "no xid is bound again in a suspended scope",
+				"after UnbindXid the scope's context is given an xid again ("+cp.Callee.Name()+"): GetXID answers it, so calls made from a NotSupported / RequiresNew scope still carry the suspended transaction's xid to their callees")
+		}
+	}
 	got := map[string]map[string]map[string]bool{} // mode -> in/out -> effect sets seen
 	for _, ex := range res.Exits {
 		mode := ""
